@@ -264,7 +264,7 @@ def judge_builder(case):
 
 
 def shards(tier):
-    k, n = (8, 60) if tier == "quick" else (32, 1000)
+    k, n = (8, 60) if tier == "quick" else (32, 300)
     return [{"id": i, "n": n} for i in range(k)]
 
 
